@@ -54,9 +54,22 @@ def env(st):
     raise ValueError(op)
 
 
+def envs(c):
+    out = []
+    for st in c["steps"]:
+        if st["op"] == "stall":
+            continue            # the peer stops reading: no event of the model
+        if st["op"] == "burst":
+            for j in range(st.get("n", 0)):
+                out.append(env({"op": "new", "k": st["k"] + j, "ctx": "never", "kind": st.get("kind")}))
+        else:
+            out.append(env(st))
+    return out
+
+
 def to_coq(c):
     return "mkCase [%s] [%s] %s %s" % (
-        "; ".join(env(s) for s in c["steps"]),
+        "; ".join(envs(c)),
         "; ".join("(%d%%N, (%s, %s))" % (x["k"], b(x["returned"]), b(x["front"])) for x in c.get("callers", [])),
         b(c.get("reader_alive")), b(c.get("serve_done")))
 
@@ -92,6 +105,9 @@ def impl_oracle(c):
         out.append(("still-registered", "the lost endpoint is still registered under its name"))
     if not c.get("servefront_returned"):
         out.append(("servefront-stuck", "ServeFront did not return within 10 s of its context being cancelled"))
+    if not c.get("accept_returned", True):
+        out.append(("accept-stuck", "Accept on the endpoint still blocks 10 s after the server dropped the "
+                                    "endpoint (fault '%s'): the control websocket was not closed" % c["fault"]))
     if not c.get("serveback_returned"):
         out.append(("serveback-stuck", "ServeBack did not return for the lost endpoint"))
     if c.get("leak"):
@@ -132,6 +148,8 @@ def run(ck):
 
     faults, kinds = {}, {}
     shrunk = set()
+    ck.coverage["cases_skipped_after_repeated_stranding"] = len([c for c in cases if c.get("skipped")])
+    cases = [c for c in cases if not c.get("skipped")]
     for c in cases:
         if c["stream"] == "tl":
             key = json.dumps([c["steps"], [(x["k"], x["returned"], x["front"]) for x in c.get("callers", [])]])
@@ -168,19 +186,31 @@ def run(ck):
 
     model_ok = all(built.get(x) for x in MODEL)
     if tl and model_ok:
-        txt = ("From Coq Require Import List NArith.\n"
-               "From Verif Require Import Sni.Shutdown Sni.ShutdownCorr.\n"
-               "Import ListNotations.\nLocal Open Scope N_scope.\n"
-               "Definition cases : list ccase := [\n  "
-               + ";\n  ".join(to_coq(c) for c in tl) + "\n].\n"
-               "Definition M := Eval vm_compute in mismatches cases.\nPrint M.\n"
-               "Definition B := Eval vm_compute in map blocked_count cases.\nPrint B.\n")
-        rc, out = ck.coq_eval("cases_0", txt)
-        got = vlib.parse_coq_list_of_nat(out, "M") if rc == 0 else None
-        if got is None:
-            ck.broken.append({"what": "correspondence evaluation failed", "detail": out[-1500:]})
-            got = []
-        blocked = vlib.parse_coq_list_of_nat(out, "B") or []
+        from concurrent.futures import ThreadPoolExecutor
+        nsh = 6      # interleaved shards, evaluated in parallel (the burst scenarios are the expensive ones)
+
+        def eval_shard(k):
+            part = tl[k::nsh]
+            txt = ("From Coq Require Import List NArith.\n"
+                   "From Verif Require Import Sni.Shutdown Sni.ShutdownCorr.\n"
+                   "Import ListNotations.\nLocal Open Scope N_scope.\n"
+                   "Definition cases : list ccase := [\n  "
+                   + ";\n  ".join(to_coq(c) for c in part) + "\n].\n"
+                   "Definition M := Eval vm_compute in mismatches cases.\nPrint M.\n"
+                   "Definition B := Eval vm_compute in map blocked_count cases.\nPrint B.\n")
+            return k, ck.coq_eval("cases_%d" % k, txt)
+
+        with ThreadPoolExecutor(max_workers=nsh) as ex:
+            results = list(ex.map(eval_shard, range(nsh)))
+        got, blocked = [], []
+        for k, (rc, out) in results:
+            g = vlib.parse_coq_list_of_nat(out, "M") if rc == 0 else None
+            if g is None:
+                ck.broken.append({"what": "correspondence evaluation failed", "detail": out[-1500:]})
+                continue
+            got += [k + nsh * i for i in g]
+            blocked += vlib.parse_coq_list_of_nat(out, "B") or []
+        got.sort()
         ck.coverage["correspondence_cases"] = len(tl)
         ck.coverage["correspondence_mismatches"] = len(got)
         ck.coverage["model_blocked_threads_total"] = sum(blocked)
@@ -203,8 +233,11 @@ def run(ck):
                  "modelled not verified: Go channels/select/scheduler fairness, timers, TCP and websocket close"],
         rule="4 fixed scenarios then seeded transport-level scenarios (2-10 steps of {new hello/read/closeAll/"
              "shutdown call with never-cancelled or cancellable context, good or mistyped reply, connection lost, "
-             "writes broken, cancel}; every scenario ends with the connection lost) replayed on the model; plus "
-             "end-to-end scenarios {endpoint-side sever, server-side sever, graceful close, kick} x 0-8 tunnelled "
+             "writes broken, cancel, bursts of 130-240 concurrent calls after the loss or against a peer that has stopped "
+             "reading}; every scenario ends with the connection lost) replayed on the model; plus "
+             "end-to-end scenarios {endpoint-side sever, server-side sever, graceful close, kick, kick while the old "
+             "control path is black-holed by a frozen TCP relay, server-side serve loop ended by an error-byte reply "
+             "while the websocket is healthy} x 0-8 tunnelled "
              "TLS front connections with the server thread held after serve() until the connections' close calls "
              "are issued. Non-trivial: a scenario with >= 1 caller / >= 1 front connection; distinct = distinct "
              "(steps, per-caller outcome) resp. (fault, connections, hold, outcome)",
